@@ -276,3 +276,199 @@ Proof.
   destruct (bleu_no_match c (concat (b :: bs))) eqn:E; [|reflexivity].
   symmetry. apply bleu_fn_zero_no_match; assumption.
 Qed.
+
+(* ========================================================================================== *)
+(* V_fixed: the repaired _bleu_score_compute (a zero-weighted order is ignored)                 *)
+(* ========================================================================================== *)
+Lemma bleu_class_spec_v (v : bvariant) : forall (c : bcfg) (t : mtree (add_metric (bleu_spec_add_v v))),
+  Forall (fun b => bleu_ok (fst c) b = true) (stream _ t) ->
+  bleu_gamma_v v c (run (add_metric (bleu_spec_add_v v)) c t)
+  = bleu_gamma_v v c (bleu_beta_with sent_matches_spec c (concat (stream _ t))).
+Proof.
+  intros c t Hv.
+  change (agamma (bleu_spec_add_v v) c (run (add_metric (bleu_spec_add_v v)) c t)
+          = bleu_gamma_v v c (bleu_beta_with sent_matches_spec c (concat (stream (add_metric (bleu_spec_add_v v)) t)))).
+  rewrite (add_tree_eq_concat (bleu_spec_add_v v) c (@app _) []
+             (fun b1 b2 => bleu_beta_with_app sent_matches c b1 b2 sent_matches_length)
+             (bleu_beta_with_nil sent_matches c) t Hv).
+  change (abeta (bleu_spec_add_v v) c) with (bleu_beta c). rewrite bleu_beta_eq_spec. reflexivity.
+Qed.
+Lemma bleu_class_eq_fn_v (v : bvariant) (c : bcfg) bs : Forall (bleu_valid c) bs ->
+  class_run (bleu_spec_add_v v) c bs = fn_of (bleu_spec_add_v v) c (concat bs).
+Proof.
+  intros Hv.
+  exact (class_run_concat (bleu_spec_add_v v) c (@app _) []
+           (fun b1 b2 => bleu_beta_with_app sent_matches c b1 b2 sent_matches_length)
+           (bleu_beta_with_nil sent_matches c) bs Hv).
+Qed.
+Lemma bleu_multiset_v (v : bvariant) c bs bs' : Forall (bleu_valid c) bs -> Forall (bleu_valid c) bs' ->
+  Permutation (concat bs) (concat bs') ->
+  class_run (bleu_spec_add_v v) c bs = class_run (bleu_spec_add_v v) c bs'.
+Proof.
+  intros H1 H2 HP. rewrite !bleu_class_eq_fn_v by assumption. unfold Counting.fn_of. cbn [abeta bleu_spec_add_v].
+  rewrite (bleu_beta_perm c _ _ HP). reflexivity.
+Qed.
+
+Definition bleu_fn_v (v : bvariant) (c : bcfg) (b : bbatch) : val := xr_val (bleu_of_stats_v v c (bleu_beta c b)).
+Lemma run_bleu_fn_v_is_bleu_fn_v v cv bv c b : dec_bcfg cv = Some c -> dec_bbatch bv = Some b -> bleu_valid c b ->
+  run_bleu_fn_v v (VL [cv; bv]) = bleu_fn_v v c b.
+Proof. intros H1 H2 H3. unfold run_bleu_fn_v. rewrite H1, H2, H3. reflexivity. Qed.
+Lemma bleu_gamma_guard_v v c b :
+  fn_of (bleu_spec_add_v v) c b = if bleu_no_match c b then vq 0%Qc else bleu_fn_v v c b.
+Proof.
+  unfold Counting.fn_of, bleu_no_match, bleu_fn_v. cbn [agamma abeta bleu_spec_add_v]. unfold bleu_gamma_v, bleu_beta, bleu_beta_with.
+  cbn [nget narr nth]. rewrite nlist_nvec. reflexivity.
+Qed.
+
+Definition fin_or_ninf (t : xs) : Prop := t = SNInf \/ exists v, t = SFin v.
+Lemma term_fixed_nomatch w p : (w = 0%Qc \/ qlt 0 w = true) -> 0 < p ->
+  (w = 0%Qc /\ bleu_term_v V_fixed w (qn 0) (qn p) = SFin (vq 0%Qc)) \/
+  (qlt 0 w = true /\ bleu_term_v V_fixed w (qn 0) (qn p) = SNInf).
+Proof.
+  intros Hw Hp. cbn [bleu_term_v].
+  assert (Hp0 : qeq (qn p) 0 = false).
+  { unfold qeq. destruct (Qc_eq_dec (qn p) 0) as [E|]; [apply qn_eq0 in E; lia|reflexivity]. }
+  destruct (Qc_eq_dec w 0) as [E|E].
+  - left. split; [exact E|]. subst w. unfold qeq at 1. destruct (Qc_eq_dec 0 0); [|congruence].
+    unfold qdivx. rewrite Hp0. reflexivity.
+  - right. destruct Hw as [Hw|Hw]; [contradiction|]. split; [exact Hw|].
+    unfold qeq at 1. destruct (Qc_eq_dec w 0); [contradiction|]. apply bleu_term_nomatch; assumption.
+Qed.
+Lemma map3_fixed_nomatch : forall ws M P, List.length M = List.length ws -> List.length P = List.length ws ->
+  Forall (fun w => w = 0%Qc \/ qlt 0 w = true) ws -> Forall (fun m => m = 0) M -> Forall (fun p => 0 < p) P ->
+  Forall fin_or_ninf (map3 (bleu_term_v V_fixed) ws (map qn M) (map qn P)) /\
+  (Exists (fun w => qlt 0 w = true) ws -> Exists (fun t => t = SNInf) (map3 (bleu_term_v V_fixed) ws (map qn M) (map qn P))).
+Proof.
+  induction ws as [|w ws IH]; intros [|m M] [|p P] HlM HlP Hw HM HP; cbn [List.length] in *; try discriminate.
+  - cbn [map map3]. split; [constructor|]. intros HE. inversion HE.
+  - inversion Hw as [|? ? Hw1 Hws]; inversion HM as [|? ? Hm1 HMs]; inversion HP as [|? ? Hp1 HPs]; subst.
+    destruct (IH M P ltac:(lia) ltac:(lia) Hws HMs HPs) as [IHa IHe].
+    cbn [map map3]. destruct (term_fixed_nomatch w p Hw1 Hp1) as [[E Ht]|[E Ht]]; rewrite Ht.
+    + split; [constructor; [right; eexists; reflexivity|exact IHa]|].
+      intros HE. apply Exists_cons_tl. apply IHe. inversion HE as [? ? Hh|? ? Hh]; subst; [|exact Hh].
+      exfalso. clear -Hh. vm_compute in Hh. discriminate Hh.
+    + split; [constructor; [left; reflexivity|exact IHa]|]. intros _. apply Exists_cons_hd. reflexivity.
+Qed.
+Lemma fold_sadd_fin_ninf : forall l a, Forall fin_or_ninf l -> fin_or_ninf a ->
+  (a = SNInf \/ Exists (fun t => t = SNInf) l) -> fold_left sadd l a = SNInf.
+Proof.
+  induction l as [|t l IH]; intros a Hl Ha Hex; cbn [fold_left].
+  - destruct Hex as [E|E]; [exact E|inversion E].
+  - inversion Hl as [|? ? Ht Hl']; subst. apply IH; [exact Hl'| |].
+    + destruct Ha as [->|[x ->]], Ht as [->|[y ->]]; cbn [sadd]; [left|left|left|right; eexists]; reflexivity.
+    + destruct Ha as [->|[x ->]], Ht as [->|[y ->]]; cbn [sadd]; try (left; reflexivity).
+      destruct Hex as [E|E]; [discriminate E|]. inversion E as [? ? Hh|? ? Hh]; subst; [discriminate Hh|right; exact Hh].
+Qed.
+
+(* nothing matched, weights >= 0 with at least one > 0: the repaired functional returns 0 like the class *)
+Lemma bleu_fn_fixed_zero_no_match (c : bcfg) b :
+  1 <= fst c -> List.length (bleu_weights c) = fst c ->
+  Forall (fun w => w = 0%Qc \/ qlt 0 w = true) (bleu_weights c) ->
+  Exists (fun w => qlt 0 w = true) (bleu_weights c) ->
+  bleu_valid c b -> bleu_no_match c b = true -> bleu_fn_v V_fixed c b = vq 0%Qc.
+Proof.
+  intros Hn Hlen Hw Hex Hv Hnm. unfold bleu_fn_v, bleu_of_stats_v, bleu_beta, bleu_beta_with.
+  cbn [nget narr nth nsc]. rewrite !nlist_nvec. unfold bleu_compute_v.
+  set (M := bleu_matches sent_matches (fst c) b). set (P := bleu_possible (fst c) b).
+  assert (HM : Forall (fun m => m = 0) M).
+  { apply list_sum_zero, qn_eq0. rewrite <- sumQl_qn. apply qeq_true. exact Hnm. }
+  assert (HP : Forall (fun p => 0 < p) P).
+  { unfold bleu_valid, bleu_ok in Hv. apply andb_true_iff in Hv as [_ Hp]. fold P in Hp.
+    apply Forall_forall. intros p Hin. rewrite forallb_forall in Hp. apply Nat.ltb_lt, Hp, Hin. }
+  assert (HlM : List.length M = fst c) by (apply bleu_matches_length; intros; apply sent_matches_length).
+  assert (HlP : List.length P = fst c) by apply bleu_possible_length.
+  destruct (map3_fixed_nomatch (bleu_weights c) M P ltac:(congruence) ltac:(congruence) Hw HM HP) as [Hall Hsome].
+  rewrite (fold_sadd_fin_ninf _ _ Hall (or_intror (ex_intro _ _ eq_refl)) (or_intror (Hsome Hex))). cbn [sexp].
+  assert (Hil : qn (bleu_ilen b) <> 0%Qc).
+  { intros E. apply qn_eq0 in E.
+    destruct P as [|p0 P'] eqn:EP; [cbn in HlP; lia|]. inversion HP as [|? ? Hp0 _]; subst.
+    pose proof (possible0 (fst c) b Hn) as H0. unfold P in EP. rewrite EP in H0. cbn [nth] in H0. lia. }
+  rewrite (brevity_shape _ _ Hil). destruct (qlt (qn (bleu_tlen b)) (qn (bleu_ilen b))); reflexivity.
+Qed.
+
+(* class = functional for the repaired BLEU: non-negative weights, at least one positive *)
+Lemma bleu_class_eq_functional_fixed_gen (c : bcfg) b bs :
+  1 <= fst c -> List.length (bleu_weights c) = fst c ->
+  Forall (fun w => w = 0%Qc \/ qlt 0 w = true) (bleu_weights c) ->
+  Exists (fun w => qlt 0 w = true) (bleu_weights c) ->
+  bleu_valid c b -> Forall (bleu_valid c) bs ->
+  class_run (bleu_spec_add_v V_fixed) c (b :: bs) = bleu_fn_v V_fixed c (concat (b :: bs)) /\ bleu_valid c (concat (b :: bs)).
+Proof.
+  intros Hn Hl Hw Hex Hb Hbs. pose proof (bleu_ok_concat c b bs Hb Hbs) as Hok. split; [|exact Hok].
+  rewrite bleu_class_eq_fn_v by (constructor; assumption). rewrite bleu_gamma_guard_v.
+  destruct (bleu_no_match c (concat (b :: bs))) eqn:E; [|reflexivity].
+  symmetry. apply bleu_fn_fixed_zero_no_match; assumption.
+Qed.
+
+(* the witness of the V_code refutation under V_fixed: weights (1, 0), "1 2" vs "1 3":
+   exp(1 - 2/2) * exp(0 + 1 * ln(1/2) + 0), i.e. the product form value 1/2 *)
+Lemma bleu_fixed_witness :
+  let c : bcfg := (2, Some [Q2Qc 1; Q2Qc 0]) in let b : bbatch := [([1; 2]%Z, [[1; 3]%Z])] in
+  bleu_valid c b /\
+  bleu_fn_v V_fixed c b = rmul (rexp (VQ 0 1)) (rexp (radd (radd (VQ 0 1) (rmul (VQ 1 1) (rln (VQ 1 2)))) (VQ 0 1))) /\
+  class_run (bleu_spec_add_v V_fixed) c [b] = bleu_fn_v V_fixed c b.
+Proof. vm_compute. repeat split; reflexivity. Qed.
+(* remaining class/functional difference after the repair: ALL weights zero and nothing matched --
+   the class's guard returns 0.0, the functional the bare brevity penalty *)
+Lemma bleu_fixed_all_zero_witness :
+  let c : bcfg := (2, Some [Q2Qc 0; Q2Qc 0]) in let b : bbatch := [([1; 2]%Z, [[3; 4; 5]%Z])] in
+  bleu_valid c b /\ class_run (bleu_spec_add_v V_fixed) c [b] = VQ 0 1 /\
+  bleu_fn_v V_fixed c b = rmul (rexp (VQ (-1) 2)) (rexp (radd (radd (VQ 0 1) (VQ 0 1)) (VQ 0 1))).
+Proof. vm_compute. repeat split; reflexivity. Qed.
+
+(* ---- V_fixed, non-negative weights: compute() is always a number (never nan / inf) ---- *)
+Lemma qn_div_nonneg k p : qlt (qn k / qn p) 0 = false.
+Proof.
+  unfold qlt. destruct (qn k / qn p ?= 0)%Qc eqn:E; try reflexivity.
+  exfalso. apply Qclt_alt in E. revert E. apply Qcle_not_lt.
+  unfold Qcle, Qcdiv, Qcmult, Qcinv, qn, mkq, Q2Qc. cbn [this]. rewrite !Qred_correct.
+  apply Qmult_le_0_compat; [|apply Qinv_le_0_compat]; unfold Qle; cbn; lia.
+Qed.
+Lemma term_fixed_fin_or_ninf w k p : (w = 0%Qc \/ qlt 0 w = true) -> 0 < p ->
+  fin_or_ninf (bleu_term_v V_fixed w (qn k) (qn p)).
+Proof.
+  intros Hw Hp. cbn [bleu_term_v].
+  assert (Hp0 : qeq (qn p) 0 = false).
+  { unfold qeq. destruct (Qc_eq_dec (qn p) 0) as [E|]; [apply qn_eq0 in E; lia|reflexivity]. }
+  unfold qeq at 1. destruct (Qc_eq_dec w 0) as [E|E].
+  - unfold qdivx. rewrite Hp0. right. eexists. reflexivity.
+  - destruct Hw as [Hw|Hw]; [contradiction|]. unfold bleu_term, qdivx. rewrite Hp0.
+    destruct (qeq (qn k / qn p) 0).
+    + left. unfold w_times_inf, qeq. destruct (Qc_eq_dec w 0); [contradiction|]. rewrite Hw. reflexivity.
+    + rewrite qn_div_nonneg. right. eexists. reflexivity.
+Qed.
+Lemma map3_fixed_fin_or_ninf : forall ws M P,
+  Forall (fun w => w = 0%Qc \/ qlt 0 w = true) ws -> Forall (fun p => 0 < p) P ->
+  Forall fin_or_ninf (map3 (bleu_term_v V_fixed) ws (map qn M) (map qn P)).
+Proof.
+  induction ws as [|w ws IH]; intros [|m M] [|p P] Hw HP; cbn [map map3]; try constructor.
+  - inversion Hw; inversion HP; subst. apply term_fixed_fin_or_ninf; assumption.
+  - inversion Hw; inversion HP; subst. apply IH; assumption.
+Qed.
+Lemma fold_sadd_closed : forall l a, Forall fin_or_ninf l -> fin_or_ninf a -> fin_or_ninf (fold_left sadd l a).
+Proof.
+  induction l as [|t l IH]; intros a Hl Ha; cbn [fold_left]; [exact Ha|].
+  inversion Hl as [|? ? Ht Hl']; subst. apply IH; [exact Hl'|].
+  destruct Ha as [->|[x ->]], Ht as [->|[y ->]]; cbn [sadd]; [left|left|left|right; eexists]; reflexivity.
+Qed.
+Lemma bleu_value_is_number_fixed_gen (c : bcfg) b :
+  1 <= fst c -> Forall (fun w => w = 0%Qc \/ qlt 0 w = true) (bleu_weights c) -> bleu_valid c b ->
+  bleu_of_stats_v V_fixed c (bleu_beta c b) = RZero \/ exists v, bleu_of_stats_v V_fixed c (bleu_beta c b) = RFin v.
+Proof.
+  intros Hn Hw Hv. unfold bleu_of_stats_v, bleu_beta, bleu_beta_with.
+  cbn [nget narr nth nsc]. rewrite !nlist_nvec. unfold bleu_compute_v.
+  set (M := bleu_matches sent_matches (fst c) b). set (P := bleu_possible (fst c) b).
+  assert (HP : Forall (fun p => 0 < p) P).
+  { unfold bleu_valid, bleu_ok in Hv. apply andb_true_iff in Hv as [_ Hp]. fold P in Hp.
+    apply Forall_forall. intros p Hin. rewrite forallb_forall in Hp. apply Nat.ltb_lt, Hp, Hin. }
+  assert (HlP : List.length P = fst c) by apply bleu_possible_length.
+  assert (Hil : qn (bleu_ilen b) <> 0%Qc).
+  { intros E. apply qn_eq0 in E.
+    destruct P as [|p0 P'] eqn:EP; [cbn in HlP; lia|]. inversion HP as [|? ? Hp0 _]; subst.
+    pose proof (possible0 (fst c) b Hn) as H0. unfold P in EP. rewrite EP in H0. cbn [nth] in H0. lia. }
+  pose proof (fold_sadd_closed _ (SFin (vq 0%Qc)) (map3_fixed_fin_or_ninf (bleu_weights c) M P Hw HP)
+                (or_intror (ex_intro _ _ eq_refl))) as Hsum.
+  rewrite (brevity_shape _ _ Hil).
+  destruct Hsum as [->|[x ->]]; cbn [sexp]; destruct (qlt (qn (bleu_tlen b)) (qn (bleu_ilen b))); cbn [rmulx];
+    first [left; reflexivity | right; eexists; reflexivity].
+Qed.
